@@ -122,7 +122,7 @@ class Calibration(TorchFunctionMode):
             else:
                 # Evaluate the best scale
                 input_scale = absmax_scale(input, module.activation_qtype)
-                module.input_scale = _updated_scale(module.input_scale, input_scale, momentum)
+                module.input_scale = _updated_scale(module.input_scale, input_scale, self.momentum)
             return input
 
     def calibrate_output(
